@@ -189,7 +189,7 @@ def cls_multi_node_list_item(t, toks):
     (typed / defaulted parameter, record-pattern field, record-type field, assignment in a tuple):
     every child is printed as an item of its own, separated by commas"""
     for x in walk(t):
-        if x[0] == 'N' and x[1] in LISTS:
+        if x[0] == 'N' and (x[1] in LISTS or x[1] == "MacroExpansion"):
             if any(len(it) > 1 for it in list_items(x)):
                 return True
     return False
@@ -1007,7 +1007,12 @@ def run(ck):
         S.append(("witness:" + cls, src, None))
     cdir = os.path.join(VERIF, "corpus", "C14")
     for f in sorted(glob.glob(os.path.join(cdir, "*.mmm"))):
-        S.append(("corpus", open(f, errors="replace").read(), None))
+        S.append(("corpus", open(f, errors="replace", newline="").read(), None))
+    cases = os.path.join(cdir, "cases.txt")       # regression inputs, separated by a line `%%`
+    if os.path.exists(cases):
+        for c in open(cases, errors="replace", newline="").read().split("\n%%\n"):
+            if c.strip():
+                S.append(("corpus", c, None))
     n_corpus = len(S)
     n_gen = 4000 if quick else 30000
     n_risky = 600 if quick else 6000
@@ -1125,6 +1130,8 @@ def run(ck):
     n_frag = n_adm = n_unsafe = n_unsafe_outside = n_samedoc0_good = 0
     not_admitted = []
     idem_mismatch = []
+    emits_mismatch = []
+    sy0 = symptoms
     if model_ok:
         lines, owner = [], []
         for idx in good_frag:
@@ -1158,6 +1165,12 @@ def run(ck):
                 if not m["safe"]:
                     n_unsafe += 1
                     unsafe_srcs.add(idx)
+                # hypothesis emits_all of C14_emits_all_same_tokens, decided by the model (commas are re-created by the printer)
+                ea = [w for w in m["dwords"] if w != ","] == [w for w in m["cwords"] if w != ","]
+                add("fragment_runs_emits_all_" + ("true" if ea else "false"))
+                if ea and ({"comments", "tokens"} & sy0(res[idx]["in"], run_)) and m["admits"] \
+                        and not classes_of(res[idx]["in"], findings):
+                    emits_mismatch.append((idx, run_["w"], run_["i"]))
                 sy = symptoms(res[idx]["in"], run_)
                 if m["samedoc"] == "0" and not sy:
                     n_samedoc0_good += 1
@@ -1215,6 +1228,7 @@ def run(ck):
         ck.violation("the formatter / parser process died on this input", {"src": s, "path": p, "origin": o, "answer": a,
                      "how": "echo '{\"m\":\"fmt\",\"src\":<src>,\"widths\":[80],\"indents\":[4]}' | .cache/target/lang/debug/fmt_run"})
     seen_min = set()
+    viol.sort(key=lambda v: len(v[1]))      # shrink the smallest failing programs
     for (o, s, p, bad) in viol[:40]:
         if len(seen_min) >= 4:
             break
@@ -1250,6 +1264,12 @@ def run(ck):
         o, s, p = S[idx]
         ck.broken.append("correspondence: same model document but different second output")
         ck.violation("output and input have the same model document but the formatter is not idempotent on it",
+                     {"src": s, "path": p, "width": w, "indent": i}, no_input=True)
+    if emits_mismatch and not viol:
+        idx, w, i = emits_mismatch[0]
+        o, s, p = S[idx]
+        ck.broken.append("correspondence: model document emits every token/comment and admits the output, yet tokens/comments differ")
+        ck.violation("the model says every token and comment is emitted and the output is a rendering, but the real token/comment sequence differs",
                      {"src": s, "path": p, "width": w, "indent": i}, no_input=True)
     if rl_bad and not viol:
         idx, t, why = rl_bad[0]
